@@ -126,7 +126,21 @@ func (s *SSym) env() M {
 	return m
 }
 
-func RunClientScript(c *CliCase) *CliObs {
+type cliKeep struct {
+	obs         *CliObs
+	streamItems int
+}
+
+// RunClientScriptKeep additionally counts the envelopes sitting on the client's inbound streams at the end.
+func RunClientScriptKeep(c *CliCase) *cliKeep {
+	k := &cliKeep{}
+	k.obs = runClientScript(c, &k.streamItems)
+	return k
+}
+
+func RunClientScript(c *CliCase) *CliObs { return runClientScript(c, nil) }
+
+func runClientScript(c *CliCase, streamItems *int) *CliObs {
 	obs := &CliObs{LastHS: -1}
 	_, ccfg := TLSConfigs()
 	var tcpCfg *lime.TCPConfig
@@ -239,6 +253,9 @@ func RunClientScript(c *CliCase) *CliObs {
 	obs.ID, obs.Local, obs.Remote = cc.ID(), NodeText(cc.LocalNode()), NodeText(cc.RemoteNode())
 	obs.Got = peer.Got
 	obs.CliClosed = cl.Closed()
+	if streamItems != nil {
+		*streamItems = drainStreams(cc.MsgChan(), cc.NotChan(), cc.ReqCmdChan(), cc.RespCmdChan())
+	}
 	obs.CliEnc = string(ct.Encryption())
 	var rest []byte
 	obs.C2SClear, rest = clearPrefix(cl.Captured())
@@ -537,5 +554,40 @@ func TestC08Replay(t *testing.T) {
 		judgeC08(&c, obs, o)
 		classifyCli(&c, obs, o)
 		rec.Eval(&c, o)
+	}
+}
+
+// drainStreams counts the envelopes currently readable on the four inbound streams (without blocking).
+func drainStreams(m <-chan *lime.Message, n <-chan *lime.Notification, rq <-chan *lime.RequestCommand, rs <-chan *lime.ResponseCommand) int {
+	cnt := 0
+	for {
+		select {
+		case v, ok := <-m:
+			if !ok {
+				m = nil
+			} else if v != nil {
+				cnt++
+			}
+		case v, ok := <-n:
+			if !ok {
+				n = nil
+			} else if v != nil {
+				cnt++
+			}
+		case v, ok := <-rq:
+			if !ok {
+				rq = nil
+			} else if v != nil {
+				cnt++
+			}
+		case v, ok := <-rs:
+			if !ok {
+				rs = nil
+			} else if v != nil {
+				cnt++
+			}
+		default:
+			return cnt
+		}
 	}
 }
